@@ -111,8 +111,9 @@ def is_error(resp):
 def differential(c, focus, n_hist, backends, cfgs, weights=None, lengths=(4, 22), clients=('w1', 'w2'),
                  judge=True, check_backends_equal=False, fail_rate=0.16):
   """Runs the tie and the property stage.  Property keys are prefixed by what failed."""
-  hists = []
-  for i in range(n_hist):
+  hists = svcgen.matrix()       # directed: every RPC on every trial / study state
+  n_hist += len(hists)
+  for i in range(n_hist - len(hists)):
     # every third history: two owners whose studies share the display name (cross-owner isolation),
     # every fourth of the rest: two studies of one owner
     if i % 3 == 0:
